@@ -1222,6 +1222,9 @@ def oracle_C16(inp):
                 key = lambda r: _json.dumps(r, sort_keys=True, default=str)
                 if sorted(map(key, A)) != sorted(map(key, R)):
                     out.append("GetFromAll.get(%r) differs from GetFromPaths.get: %r vs %r" % (s, A, R))
+                one_all = GetFromAll().get_one(s, attributes=attributes, sid_encode=enc)
+                if dict(one_all) != (dict(A[0]) if A else {}):
+                    out.append("GetFromAll.get_one(%r) = %r is not the first record of GetFromAll.get: %r" % (s, dict(one_all), A[:1]))
             except BaseException as e:  # noqa
                 out.append("GetFromAll.get(%r) raised %s: %s" % (s, type(e).__name__, e))
         elif us and all(conf.get_getter_for(u) is None for u in us):
